@@ -108,6 +108,14 @@ func (m *incomingStreamsMap[T]) AcceptStream(ctx context.Context) (T, error) {
 			return *new(T), err
 		}
 	}
+	// The peer might have opened multiple streams at once, but newStreamChan only holds a single
+	// wake-up. If another stream is ready to be accepted, wake up the next AcceptStream call (if any).
+	if _, ok := m.streams[m.nextStreamToAccept]; ok {
+		select {
+		case m.newStreamChan <- struct{}{}:
+		default:
+		}
+	}
 	m.mutex.Unlock()
 	return entry.stream, nil
 }
